@@ -1,15 +1,42 @@
 package main
 
+import (
+	"fmt"
+	"sort"
+	"strings"
+
+	"golang.org/x/tools/go/callgraph"
+	"golang.org/x/tools/go/ssa"
+)
+
 func init() {
 	register(&propDef{
 		id:  "C09",
 		run: runC09,
-		explanation: "TBD",
-		notCovered:  "TBD",
+		explanation: "Static typestate/pairing analysis (path-sensitive, on SSA) of everything a failing or finishing operation must give back: the write-lock token (a capacity-1 channel) against a reviewed per-function exit contract, every sync.Mutex/RWMutex in the engine packages, the internally opened large-batch transaction, and locks held across the compaction exit-panic protocol; plus an exhaustive inventory of every blocking channel operation in package leveldb (each must be a select with a close/timeout case or a reviewed rendezvous), the acknowledge-on-exit epilogues of the background loops, and the order of Close. Each clause is a structural necessary condition: breaking it gives a schedule/fault position at which some call blocks forever. Liveness itself (that waits are eventually signalled, fairness) is NOT decided.",
+		notCovered:  "progress under fair scheduling; that every wait is eventually signalled; lock-order cycles across goroutines other than the cache callback edge (C17.3)",
+		assumptions: []string{"sync.Mutex is not re-entrant; a capacity-1 channel send blocks while the token is out", "the reviewed rendezvous table (plain sends/receives) in rules_c09.go"},
 	})
 }
 
 var lockPkgs = []string{"leveldb", "leveldb/cache", "leveldb/memdb", "leveldb/table", "leveldb/storage", "leveldb/util", "leveldb/iterator", "leveldb/journal"}
+
+// reviewed plain (non-select) blocking channel operations in package leveldb
+var reviewedPlainOps = map[string]string{
+	"(*leveldb.DB).Close|send|leveldb.DB.writeLockC":              "terminal acquire, after closeC was closed and the open transaction discarded; every holder releases (token contracts)",
+	"(*leveldb.session).commit$1|send|leveldb.session.abandon":    "refLoop receives abandon in every iteration until session.close, which runs after all committers have exited",
+	"(leveldb.cAuto).ack|send|leveldb.cAuto.ackC":                 "ack to a waiter; protected by recover because the waiter closes the channel when it gives up",
+	"(leveldb.cRange).ack|send|leveldb.cRange.ackC":               "as cAuto.ack",
+	"(*leveldb.DB).unlockWrite|send|leveldb.DB.writeAckC":         "each merged writer is already committed to receiving its result (C10.5)",
+	"(*leveldb.DB).unlockWrite|send|leveldb.DB.writeMergedC":      "the overflowed writer is already committed to receiving the reply (C10.3)",
+	"(*leveldb.DB).writeLocked|send|leveldb.DB.writeMergedC":      "the requester is committed to `<-writeMergedC` right after its send was taken",
+	"(*leveldb.DB).Write|recv|leveldb.DB.writeMergedC":            "the leader that took the request replies exactly once (C10.3)",
+	"(*leveldb.DB).Write|recv|leveldb.DB.writeAckC":               "the leader acks every merged writer in unlockWrite on every exit (C10.1/C10.2)",
+	"(*leveldb.DB).putRec|recv|leveldb.DB.writeMergedC":           "as Write",
+	"(*leveldb.DB).putRec|recv|leveldb.DB.writeAckC":              "as Write",
+	"(*leveldb.session).refLoop|recv|time.Timer.C":                "initial tick of time.NewTimer(0)",
+	"(*leveldb.session).refLoop|send|?":                           "reply on the test-only fileRefCh request channel",
+}
 
 func runC09(p *Prog, r *Report) {
 	if want("C09.1") {
@@ -17,5 +44,445 @@ func runC09(p *Prog, r *Report) {
 	}
 	if want("C09.2") {
 		ruleLockPairing(p, r, "C09.2", lockPkgs, 150)
+	}
+	if want("C09.3") {
+		ruleOpenTrFinished(p, r, "C09.3")
+	}
+	if want("C09.4") {
+		ruleLocksAcrossExitPanic(p, r, "C09.4")
+	}
+	if want("C09.5") {
+		ruleChanInventory(p, r, "C09.5")
+	}
+	if want("C09.6") {
+		ruleLatchedWriterRetried(p, r, "C09.6")
+	}
+	if want("C09.7") {
+		ruleLoopsAckOnExit(p, r, "C09.7")
+	}
+	if want("C09.8") {
+		ruleCloseOrder(p, r, "C09.8")
+	}
+}
+
+// C09.3: a transaction opened inside the repository and not returned is finished on every exit.
+func ruleOpenTrFinished(p *Prog, r *Report, rule string) {
+	r.Begin(rule, "E-PAIR", "a *Transaction obtained from OpenTransaction inside the repository and not returned to the caller reaches Discard, or a Commit whose result is nil, on every exit", 1)
+	defer r.End()
+	sp := &TSpec{
+		Name: "opentr",
+		Instr: func(in ssa.Instruction) ([]Eff, bool) {
+			if isCallTo(in, "(*leveldb.Transaction).Discard") {
+				return []Eff{{Res: "tr", D: -1, Sat: true}}, true
+			}
+			return nil, false
+		},
+		Cond: func(in ssa.Instruction) (*CondEff, bool) {
+			switch {
+			case isCallTo(in, "(*leveldb.DB).OpenTransaction"):
+				return &CondEff{ResultIdx: 1, WhenNil: []Eff{{Res: "tr", D: +1}}}, true
+			case isCallTo(in, "(*leveldb.Transaction).Commit"):
+				return &CondEff{ResultIdx: -1, WhenNil: []Eff{{Res: "tr", D: -1}}}, true
+			}
+			return nil, false
+		},
+	}
+	for _, pk := range []string{"leveldb"} {
+		for _, fn := range p.SrcFuncs(pk) {
+			if len(findCalls(fn, "(*leveldb.DB).OpenTransaction")) == 0 {
+				continue
+			}
+			name := fnName(fn)
+			r.Fn(name)
+			r.Site(1)
+			res := sp.Analyze(fn, nil, nil)
+			bad := false
+			seen := map[string]bool{}
+			for _, e := range res.Exits {
+				if e.State.cnt["tr"] == 0 {
+					continue
+				}
+				// exempt: the transaction itself is returned
+				ret := e.In.(*ssa.Return)
+				returned := false
+				for _, v := range ret.Results {
+					if namedOf(v.Type()) == "leveldb.Transaction" && !isNilConst(retValue(ret, v)) {
+						returned = true
+					}
+				}
+				if returned {
+					continue
+				}
+				k := p.Pos(ret.Pos())
+				if seen[k] {
+					continue
+				}
+				seen[k] = true
+				r.Fail(name, "open-transaction-leaked", "the internally opened transaction is committed successfully or discarded before returning",
+					fmt.Sprintf("return at %s leaves the transaction open (e.g. Commit failed and its error is returned without Discard): the write lock stays with the abandoned transaction", k), k, nil)
+				bad = true
+			}
+			if !bad {
+				r.OK(name, "transaction-finished", fmt.Sprintf("transaction finished on all %d exit states", len(res.Exits)))
+			}
+		}
+	}
+}
+
+// reachersOf: all functions from which target is reachable in the call graph.
+func reachersOf(cg *callgraph.Graph, target *ssa.Function) map[*ssa.Function]bool {
+	out := map[*ssa.Function]bool{}
+	n := cg.Nodes[target]
+	if n == nil {
+		return out
+	}
+	var stack []*callgraph.Node
+	stack = append(stack, n)
+	out[target] = true
+	for len(stack) > 0 {
+		x := stack[len(stack)-1]
+		stack = stack[:len(stack)-1]
+		for _, e := range x.In {
+			c := e.Caller.Func
+			if !out[c] {
+				out[c] = true
+				stack = append(stack, e.Caller)
+			}
+		}
+	}
+	return out
+}
+
+// C09.4: any mutex held at a call that can reach compactionExitTransact (which panics by
+// design to unwind the compaction goroutine) must be released by defer.
+func ruleLocksAcrossExitPanic(p *Prog, r *Report, rule string) {
+	r.Begin(rule, "E-PAIR", "a mutex held at a call that can reach compactionExitTransact (exit panic) is released by a deferred unlock", 1)
+	defer r.End()
+	exit := p.Fn("leveldb", "(*DB).compactionExitTransact")
+	if exit == nil {
+		r.Fail("leveldb:(*DB).compactionExitTransact", "unresolved-anchor", "exit-panic function exists", "not found", "", nil)
+		return
+	}
+	reach := reachersOf(p.CG(), exit)
+	sp := lockSpec()
+	for _, fn := range p.SrcFuncs("leveldb") {
+		if !hasMutexOps(fn) {
+			continue
+		}
+		name := fnName(fn)
+		watch := func(in ssa.Instruction) bool {
+			if _, ok := in.(*ssa.Call); !ok {
+				return false
+			}
+			cc := callCommon(in)
+			if cc.IsInvoke() {
+				return false
+			}
+			callee := staticCallee(cc)
+			if callee == nil {
+				callee = closureCallee(cc)
+			}
+			return callee != nil && reach[callee]
+		}
+		res := sp.Analyze(fn, nil, watch)
+		for in, states := range res.At {
+			r.Fn(name)
+			bad := ""
+			held := false
+			for _, st := range states {
+				for lk, c := range st.cnt {
+					if c <= 0 {
+						continue
+					}
+					held = true
+					// must have a pending deferred release of lk
+					ok := false
+					for dk := range st.defs {
+						for _, e := range decEffs(dk) {
+							if e.Res == lk && e.D < 0 {
+								ok = true
+							}
+						}
+					}
+					if !ok {
+						bad = lk
+					}
+				}
+			}
+			if held {
+				r.Site(1)
+			}
+			if bad != "" {
+				r.Fail(name, "lock-held-across-exit-panic:"+bad, "lock held at a call that may panic with errCompactionTransactExiting is defer-released",
+					fmt.Sprintf("%s is held at %s (call may reach compactionExitTransact) without a deferred unlock: the exit panic would leave it locked forever", bad, p.Pos(in.Pos())), p.Pos(in.Pos()), nil)
+			} else if held {
+				r.OK(name, "deferred@"+calleeName(callCommon(in)), "lock held across a possibly exit-panicking call is defer-released")
+			}
+		}
+	}
+}
+
+// C09.5: inventory of blocking channel operations.
+func ruleChanInventory(p *Prog, r *Report, rule string) {
+	r.Begin(rule, "E-EXH", "every blocking channel operation in package leveldb is a select with a `<-closeC` (or timeout) case, or a reviewed rendezvous; every select that acquires the write lock also has `<-compPerErrC` and `<-closeC` cases", 40)
+	defer r.End()
+	seenReviewed := map[string]bool{}
+	for _, fn := range p.SrcFuncs("leveldb") {
+		ops := chanOps(fn)
+		if len(ops) == 0 {
+			continue
+		}
+		r.Fn(fnName(fn))
+		for _, op := range ops {
+			if !op.block {
+				continue
+			}
+			r.Site(1)
+			pos := p.Pos(op.in.Pos())
+			switch op.kind {
+			case "select":
+				hasClose, hasTimeout, acquires, hasPerErr := false, false, false, false
+				for _, c := range op.chans {
+					if strings.HasPrefix(c, "<-") && isCloseC(c[2:]) {
+						hasClose = true
+					}
+					if c == "<-call:time.After" {
+						hasTimeout = true
+					}
+					if c == "->leveldb.DB.writeLockC" {
+						acquires = true
+					}
+					if c == "<-leveldb.DB.compPerErrC" {
+						hasPerErr = true
+					}
+				}
+				if !hasClose && !hasTimeout {
+					r.Fail(fnName(fn), "select-without-exit:"+strings.Join(op.chans, ","), "blocking select has a `<-closeC` or timeout case", "blocking select at "+pos+" has no close/timeout case: it can wait forever once the DB is closing", pos, nil)
+					continue
+				}
+				if acquires && fnName(fn) != "(*leveldb.DB).compactionError" && !(hasPerErr && hasClose) {
+					r.Fail(fnName(fn), "lock-acquire-without-error-exit", "a select that acquires the write lock also listens on compPerErrC and closeC", "select at "+pos+" acquires the write lock without the persistent-error/close cases: in read-only or corrupted state the caller blocks forever", pos, nil)
+					continue
+				}
+				r.OK(fnName(fn), "select@"+strings.Join(op.chans, ","), "blocking select has an exit case")
+			default:
+				if op.kind == "recv" && op.chans[0] == "leveldb.DB.writeLockC" {
+					r.OK(fnName(fn), "token-release", "receive on the capacity-1 token channel by its holder never blocks; who may release is decided by the token contracts (C09.1)")
+					continue
+				}
+				if why, ok := reviewedPlainOps[op.key]; ok {
+					seenReviewed[op.key] = true
+					r.OK(fnName(fn), op.kind+":"+op.chans[0], "reviewed rendezvous: "+why)
+				} else {
+					r.Fail(fnName(fn), "unreviewed-blocking-"+op.kind+":"+op.chans[0], "every plain blocking send/receive is a reviewed rendezvous", fmt.Sprintf("plain blocking %s on %s at %s is not in the reviewed table (no closeC alternative)", op.kind, op.chans[0], pos), pos, nil)
+				}
+			}
+		}
+	}
+	var missing []string
+	for k := range reviewedPlainOps {
+		if !seenReviewed[k] {
+			missing = append(missing, k)
+		}
+	}
+	sort.Strings(missing)
+	for _, k := range missing {
+		r.Fail(k, "unresolved-anchor", "reviewed rendezvous rows resolve", "row no longer matches any operation (the protocol changed: re-review)", "", nil)
+	}
+}
+
+// C09.6: operations retried in an unbounded loop must not depend on a latched failure.
+func ruleLatchedWriterRetried(p *Prog, r *Report, rule string) {
+	r.Begin(rule, "E-REACH", "an operation retried in an unbounded loop (compactionTransact, Transaction.Commit) does not depend on a struct-field *journal.Writer whose write error is sticky, unless its failure path replaces or resets that writer", 1)
+	defer r.End()
+	commit := resolveFn(p, r, "leveldb", "(*session).commit")
+	fm := resolveFn(p, r, "leveldb", "(*session).flushManifest")
+	if commit == nil || fm == nil {
+		return
+	}
+	// the retried contexts really reach session.commit
+	reach := reachersOf(p.CG(), commit)
+	ct := p.Fn("leveldb", "(*DB).compactionCommit")
+	tc := p.Fn("leveldb", "(*Transaction).Commit")
+	n := 0
+	if ct != nil {
+		for _, a := range ct.AnonFuncs {
+			if reach[a] {
+				n++
+			}
+		}
+	}
+	if tc != nil && reach[tc] {
+		n++
+	}
+	if n == 0 {
+		r.Fail(fnName(commit), "unresolved-anchor", "session.commit is reached from a retry loop", "no retry context reaches session.commit any more: re-review", "", nil)
+		return
+	}
+	r.Site(n)
+	// flushManifest uses s.manifest (sticky) — does any function on the failure path reset it?
+	usesSticky := countInstr(fm, func(in ssa.Instruction) bool {
+		return isCallTo(in, fJNext, fJFlush) && argIs(in, 0, mFieldLoad("leveldb.session", "manifest"))
+	}) > 0
+	if !usesSticky {
+		r.OK(fnName(fm), "no-sticky-writer", "flushManifest does not use a long-lived journal.Writer")
+		return
+	}
+	recovers := func(fn *ssa.Function) bool {
+		// on the error path of flushManifest / of the manifest writer calls: a store to s.manifest,
+		// a Reset of it, or a fall-back to newManifest
+		errVal := mErrOfCall(fFlushMan, fJNext, fJFlush, fEncode, "iface:leveldb/storage.Writer.Sync")
+		fix := orPred(evStoreField("leveldb.session", "manifest"), evCall(fJReset), evCall(fNewMan))
+		return findPath(entryPoint(fn), onlyWhenErr(errVal), nil, fix) != nil && func() bool {
+			// and that recovery is only reachable on an error edge (i.e. it is a failure-path action)
+			tested := false
+			for _, b := range fn.Blocks {
+				if cond, _, ok := ifCond(b); ok {
+					if x, _, ok := condNilTest(cond); ok && (errVal(x) || errVal(testedValue(x))) {
+						tested = true
+					}
+				}
+			}
+			return tested
+		}()
+	}
+	if recoversAfterFlushFailure(commit) || recovers(fm) {
+		r.OK(fnName(fm), "latched-writer-recovered", "a failed manifest append replaces/resets the manifest writer before the retry")
+		return
+	}
+	r.Fail(fnName(fm), "latched-writer-retried", "a failed manifest append replaces/resets the sticky manifest journal.Writer before the operation is retried",
+		"flushManifest appends through s.manifest (journal.Writer latches its first write error in w.err; Next/Flush then fail forever); neither flushManifest nor session.commit replaces or resets s.manifest on failure, and compactionCommit retries session.commit without bound while holding compCommitLk", p.Pos(fm.Pos()), nil)
+}
+
+// recoversAfterFlushFailure: in session.commit, after flushManifest returned an error, a path
+// reaches newManifest / a store to s.manifest before returning.
+func recoversAfterFlushFailure(commit *ssa.Function) bool {
+	errVal := mErrOfCall(fFlushMan)
+	fix := orPred(evStoreField("leveldb.session", "manifest"), evCall(fJReset), evCall(fNewMan))
+	starts := after(commit, evCall(fFlushMan))
+	if len(starts) == 0 {
+		return false
+	}
+	return findPath(starts, nil, nil, fix) != nil && func() bool {
+		for _, b := range commit.Blocks {
+			if cond, _, ok := ifCond(b); ok {
+				if x, _, ok := condNilTest(cond); ok && errVal(testedValue(x)) {
+					return true
+				}
+			}
+		}
+		return false
+	}()
+}
+
+// C09.7: background loops acknowledge in-flight and queued commands and call closeW.Done on
+// every exit, including the exit panic.
+func ruleLoopsAckOnExit(p *Prog, r *Report, rule string) {
+	r.Begin(rule, "E-ORD", "mCompaction and tCompaction register, before anything else, a deferred epilogue that acks the in-flight (and queued) command and calls closeW.Done() on every exit, including the exit panic", 4)
+	defer r.End()
+	done := evCall("(*sync.WaitGroup).Done")
+	ack := func(in ssa.Instruction) bool { return isInvokeNamed(in, "ack") }
+	for _, name := range []string{"(*DB).mCompaction", "(*DB).tCompaction"} {
+		fn := resolveFn(p, r, "leveldb", name)
+		if fn == nil {
+			continue
+		}
+		var epi *ssa.Function
+		for _, a := range fn.AnonFuncs {
+			if countInstr(a, done) > 0 {
+				epi = a
+			}
+		}
+		if epi == nil {
+			r.Fail(fnName(fn), "epilogue:unresolved-anchor", "loop has a deferred epilogue calling closeW.Done", "not found", p.Pos(fn.Pos()), nil)
+			continue
+		}
+		r.Fn(fnName(epi))
+		// deferred before any call/select in the loop function
+		isDeferEpi := func(in ssa.Instruction) bool {
+			d, ok := in.(*ssa.Defer)
+			return ok && closureCallee(&d.Call) == epi
+		}
+		risky := func(in ssa.Instruction) bool {
+			switch in.(type) {
+			case *ssa.Call, *ssa.Select, *ssa.Send:
+				return true
+			}
+			return false
+		}
+		ordPrecede(p, r, fn, "epilogue-registered-first", nil, isDeferEpi, "defer epilogue", risky, "any call/select/send")
+		// the epilogue: Done on every normal completion (re-panic of foreign panics is the only other exit)
+		ordOnSuccess(p, r, epi, "done-on-every-exit", nil, done, "closeW.Done()")
+		// recover() is called, so the exit panic is absorbed
+		rec := func(in ssa.Instruction) bool { return isCallTo(in, "builtin:recover") }
+		ordOnSuccess(p, r, epi, "recovers", nil, rec, "recover()")
+		// in-flight command acked under x != nil
+		if !requireSites(p, r, epi, "ack", "x.ack(..)", ack, 1) {
+			continue
+		}
+		r.OK(fnName(epi), "acks", "epilogue acks the in-flight command")
+		// every received command is acked or queued in the loop body: after the receive of a
+		// command, x.ack is called or x is appended to waitQ before the next receive — checked
+		// as: the loop function itself contains ack calls for every command kind
+		n := countInstr(fn, ack)
+		r.Check(n >= 1, fnName(fn), "loop-acks", "the loop acks handled commands", "no ack call in loop body", p.Pos(fn.Pos()))
+	}
+}
+
+// C09.8: Close order.
+func ruleCloseOrder(p *Prog, r *Report, rule string) {
+	r.Begin(rule, "E-ORD", "DB.Close: close(closeC) → discard the open transaction → terminal write-lock acquire → closeW.Wait() → journal/session teardown; all after the setClosed gate", 5)
+	defer r.End()
+	fn := resolveFn(p, r, "leveldb", "(*DB).Close")
+	if fn == nil {
+		return
+	}
+	closeC := func(in ssa.Instruction) bool {
+		return isCallTo(in, "builtin:close") && argIs(in, 0, mFieldLoad(tDB, "closeC"))
+	}
+	discard := evCall("(*leveldb.Transaction).Discard")
+	acquire := evSendOn(tDB, "writeLockC")
+	wait := evCall("(*sync.WaitGroup).Wait")
+	sclose := evCall("(*leveldb.session).close")
+	srelease := evCall("(*leveldb.session).release")
+	setClosed := evCall("(*leveldb.DB).setClosed")
+	ordPrecede(p, r, fn, "gate-first", nil, setClosed, "setClosed()", closeC, "close(closeC)")
+	ordPrecede(p, r, fn, "signal-before-discard", nil, closeC, "close(closeC)", discard, "tr.Discard()")
+	ordPrecede(p, r, fn, "signal-before-acquire", nil, closeC, "close(closeC)", acquire, "writeLockC <- (terminal acquire)")
+	ordPrecede(p, r, fn, "acquire-before-wait", nil, acquire, "terminal acquire", wait, "closeW.Wait()")
+	ordPrecede(p, r, fn, "wait-before-session-close", nil, wait, "closeW.Wait()", sclose, "s.close()")
+	ordPrecede(p, r, fn, "session-close-before-release", nil, sclose, "s.close()", srelease, "s.release() (storage lock)")
+	// everything on the success path
+	for _, e := range []struct {
+		k string
+		p InstrPred
+		d string
+	}{{"closes-closeC", closeC, "close(closeC)"}, {"acquires", acquire, "terminal acquire"}, {"waits", wait, "closeW.Wait()"}, {"closes-session", sclose, "s.close()"}, {"releases-storage-lock", srelease, "s.release()"}} {
+		// success = setClosed() returned true
+		gate := assumeBool(func(v ssa.Value) (bool, bool) {
+			if _, ok := callValue(v, "(*leveldb.DB).setClosed"); ok {
+				return true, true
+			}
+			return false, false
+		})
+		if w := findPath(entryPoint(fn), gate, e.p, isReturn); w != nil {
+			r.Fail(fnName(fn), e.k+":skipped", "first Close passes "+e.d, "a path of the first Close returns without "+e.d, p.posOfLast(w, isReturn), p.renderPath(w))
+		} else {
+			r.OK(fnName(fn), e.k, "first Close passes "+e.d)
+		}
+	}
+	// the discard is under `db.tr != nil`, and when there is an open transaction it is on the path:
+	trNonNil := assumeBool(func(v ssa.Value) (bool, bool) {
+		if b, ok := v.(*ssa.BinOp); ok {
+			if isFieldLoad(b.X, tDB, "tr") && isNilConst(b.Y) {
+				return b.Op.String() == "!=", true
+			}
+		}
+		return false, false
+	})
+	if w := findPath(entryPoint(fn), trNonNil, discard, acquire); w != nil {
+		r.Fail(fnName(fn), "acquire-without-discard", "with an open transaction Close discards it before taking the lock", "terminal acquire reachable with db.tr != nil and no Discard: Close would wait for a lock its own transaction holds", p.posOfLast(w, acquire), p.renderPath(w))
+	} else {
+		r.OK(fnName(fn), "discard-before-acquire-when-open", "with an open transaction Close discards it before taking the lock")
 	}
 }
